@@ -721,6 +721,11 @@ func (r *replicateChannelManager) startReadChannel(ctx context.Context, sourceIn
 		channelHandler.isDroppedPartition = r.isDroppedPartition
 		channelHandler.replicateID = r.replicateID
 		diffValueForKey := r.channelMapping.CheckKeyNotExist(sourceInfo.PChannel, targetInfo.PChannel)
+		// channelForwardMap counts the channels a value serves together with those it is promised to (forwardChannel):
+		// a promised place is taken
+		if diffValueForKey && r.channelForwardMap[channelMappingValue] >= r.channelMapping.AverageCnt() {
+			diffValueForKey = false
+		}
 
 		if !diffValueForKey {
 			channelLog.Info("channel already has replicate for target channel")
@@ -801,7 +806,7 @@ func (r *replicateChannelManager) waitChannel(sourceInfo *model.SourceCollection
 				} else {
 					channelHandler.sourcePChannel = targetChannel
 				}
-				r.channelForwardMap[targetChannel] += 1
+				// the place was counted when the channel was forwarded (forwardChannel)
 				r.channelMapping.AddKeyValue(channelHandler.sourcePChannel, channelHandler.targetPChannel)
 				channelHandler.startReadChannel()
 				r.channelLock.Unlock()
